@@ -23,6 +23,11 @@ struct CT(u32);
 struct SE0(u32);
 #[derive(Event, Serialize, Deserialize, Clone, Copy)]
 struct ST(u32);
+/// registered as independent
+#[derive(Event, Serialize, Deserialize, Clone, Copy)]
+struct SEI(u32);
+#[derive(Event, Serialize, Deserialize, Clone, Copy)]
+struct STI(u32);
 
 #[derive(Clone)]
 enum Emit {
@@ -30,6 +35,8 @@ enum Emit {
     Ct(u32),
     Se(String, u32),
     St(String, u32),
+    Sei(String, u32),
+    Sti(String, u32),
 }
 
 #[derive(Resource, Default)]
@@ -75,12 +82,33 @@ fn emit(world: &mut World) {
                     world.flush();
                 }
             }
+            Emit::Sei(m, s) => {
+                if let Some(mode) = mode_of(&m, remote) {
+                    world.send_event(ToClients { mode, event: SEI(s) });
+                }
+            }
+            Emit::Sti(m, s) => {
+                if let Some(mode) = mode_of(&m, remote) {
+                    world.commands().server_trigger(ToClients { mode, event: STI(s) });
+                    world.flush();
+                }
+            }
         }
     }
 }
 
 fn who(e: Entity) -> &'static str {
     if e == SERVER { "S" } else { "R" }
+}
+
+fn observe_sei(mut log: ResMut<Log>, mut se: EventReader<SEI>) {
+    for e in se.read() {
+        log.0.push(format!("got SEI:{}", e.0));
+    }
+}
+
+fn observe_sti(t: Trigger<STI>, mut log: ResMut<Log>) {
+    log.0.push(format!("got STI:{}", t.event().0));
 }
 
 fn observe(mut log: ResMut<Log>, mut from: EventReader<FromClient<CE0>>, mut se: EventReader<SE0>) {
@@ -121,14 +149,19 @@ fn build(full: bool) -> App {
         .add_client_trigger::<CT>(Channel::Ordered)
         .add_server_event::<SE0>(Channel::Ordered)
         .add_server_trigger::<ST>(Channel::Ordered)
+        .add_server_event::<SEI>(Channel::Ordered)
+        .make_event_independent::<SEI>()
+        .add_server_trigger::<STI>(Channel::Ordered)
+        .make_trigger_independent::<STI>()
         .init_resource::<Pending>()
         .init_resource::<Log>()
         .init_resource::<Remote>()
         .init_resource::<FixedRuns>()
-        .add_systems(Update, (observe, emit).chain())
+        .add_systems(Update, (observe, observe_sei, emit).chain())
         .add_systems(FixedUpdate, count_fixed)
         .add_observer(observe_ct)
-        .add_observer(observe_st);
+        .add_observer(observe_st)
+        .add_observer(observe_sti);
     app.finish();
     app.cleanup();
     app
@@ -137,9 +170,10 @@ fn build(full: bool) -> App {
 fn decode(ch_names: &[&str], ch: usize, base: usize, mut m: Bytes, with_tick: bool) -> String {
     let name = ch.checked_sub(base).and_then(|i| ch_names.get(i)).copied().unwrap_or("?");
     let mut go = || -> Option<String> {
-        let tick = if with_tick { Some(postcard_utils::from_buf::<u32, _>(&mut m).ok()?) } else { None };
+        // independent events carry no tick
+        let tick = if with_tick && name != "SEI" && name != "STI" { Some(postcard_utils::from_buf::<u32, _>(&mut m).ok()?) } else { None };
         let _ = tick;
-        if name == "CT" || name == "ST" {
+        if name == "CT" || name == "ST" || name == "STI" {
             let _n: usize = postcard_utils::from_buf(&mut m).ok()?;
         }
         let seq: u32 = postcard_utils::from_buf(&mut m).ok()?;
@@ -207,6 +241,8 @@ fn main() {
                     "ce" => Emit::Ce(t[2].parse().unwrap()),
                     "ct" => Emit::Ct(t[2].parse().unwrap()),
                     "se" => Emit::Se(t[2].into(), t[3].parse().unwrap()),
+                    "sei" => Emit::Sei(t[2].into(), t[3].parse().unwrap()),
+                    "sti" => Emit::Sti(t[2].into(), t[3].parse().unwrap()),
                     _ => Emit::St(t[2].into(), t[3].parse().unwrap()),
                 };
                 a.world_mut().resource_mut::<Pending>().0.push(op);
@@ -236,7 +272,7 @@ fn main() {
                     }
                     let sent: Vec<(Entity, usize, Bytes)> = a.world_mut().resource_mut::<RepliconServer>().drain_sent().collect();
                     let mut items: Vec<String> =
-                        sent.into_iter().filter(|(_, ch, _)| *ch >= 2).map(|(_, ch, m)| decode(&["SE0", "ST"], ch, 2, m, true)).collect();
+                        sent.into_iter().filter(|(_, ch, _)| *ch >= 2).map(|(_, ch, m)| decode(&["SE0", "ST", "SEI", "STI"], ch, 2, m, true)).collect();
                     items.sort();
                     for it in items {
                         out.push(format!("net-s2c {it}"));
